@@ -28,7 +28,7 @@ def cases(rng, tier):
             base['crits'][0][0] = rng.choice(['gen', 'gre']); base['crits'][0][2] = []
             names = set(); 
             for c in base['crits']:
-                if c[0] in names: c[0] = [x for x in LP.CRIT if x not in names and x not in ('gen', 'gre')][0]
+                if c[0] in names: c[0] = [x for x in LP.CRIT if x not in names and x not in ('gen', 'gre')][0]; c[2] = []      # (extras belong to the old name)
                 names.add(c[0])
         limit = rng.choice([None, None, 5])
         kinds = list(CODES) + (['timelimit-incumbent'] if limit else [])
